@@ -1555,7 +1555,7 @@ func (f *fn) joinPoint(n ast.Node, k kont) kont {
 
 func (f *fn) shortPosEnd(n ast.Node) string {
 	p := fset.Position(n.End())
-	return fmt.Sprintf("line %d", p.Line)
+	return fmt.Sprintf("line %d of the function", p.Line-fset.Position(f.decl.Pos()).Line+1)
 }
 
 // fallsThrough: the statement list can reach its end (syntactic approximation)
@@ -1687,9 +1687,11 @@ func rangeVars(s *ast.RangeStmt) string {
 	return k + ", " + v
 }
 
+// shortPos: where a statement is, relative to its function (line numbers of the
+// file would make the generated text change with every unrelated edit above)
 func (f *fn) shortPos(n ast.Node) string {
 	p := fset.Position(n.Pos())
-	return fmt.Sprintf("line %d", p.Line)
+	return fmt.Sprintf("line %d of the function", p.Line-fset.Position(f.decl.Pos()).Line+1)
 }
 
 // forStmt: `for init; cond; post { body }` with an explicit iteration budget.
